@@ -185,14 +185,11 @@ theorem expandLoop_some {proj : Project} {rank : List Nat} (wf : WFacts proj ran
                 exact expandLoop_some wf hI e he (y2 :: r) nxt false (by simp) hl
       · exact ⟨_, expandLoop_notfound hfn hgo hcl hpe⟩
 
-theorem lookupModule_nocrash {proj : Project} {rank : List Nat} (wf : WFacts proj rank) {s : St} (hI : PdInv proj s)
-    (T : Path) : (lookupModule s T).2 = false := by
-  unfold lookupModule
-  simp only
+theorem findObject_nocrash {proj : Project} {rank : List Nat} (wf : WFacts proj rank) {s : St} (hI : PdInv proj s)
+    (T : Path) : Names.findObject (envOf s) T ≠ .indexError ∧ Names.findObject (envOf s) T ≠ .crash := by
   cases hof : Names.objFor (envOf s) T with
-  | some i => simp only; split <;> (try split) <;> rfl
+  | some i => unfold Names.findObject; simp [hof]
   | none =>
-    simp only
     have hfo : Names.findObject (envOf s) T ≠ .indexError ∧ Names.findObject (envOf s) T ≠ .crash := by
       suffices h : Names.findObjectOld (envOf s) T ≠ .indexError ∧ Names.findObjectOld (envOf s) T ≠ .crash from
         ⟨Names.findObject_ne_of_old (by simp) h.1, Names.findObject_ne_of_old (by simp) h.2⟩
@@ -224,6 +221,17 @@ theorem lookupModule_nocrash {proj : Project} {rank : List Nat} (wf : WFacts pro
             have : Names.expandName (envOf s) ro rest = some p2 := hp2
             simp only [this]
             cases Names.objFor (envOf s) p2 <;> simp
+    exact hfo
+
+theorem lookupModule_nocrash {proj : Project} {rank : List Nat} (wf : WFacts proj rank) {s : St} (hI : PdInv proj s)
+    (T : Path) : (lookupModule s T).2 = false := by
+  unfold lookupModule
+  simp only
+  cases hof : Names.objFor (envOf s) T with
+  | some i => simp only; split <;> (try split) <;> rfl
+  | none =>
+    simp only
+    have hfo := findObject_nocrash wf hI T
     cases hf : Names.findObject (envOf s) T with
     | obj i => simp only; split <;> (try split) <;> rfl
     | external => rfl
@@ -480,7 +488,7 @@ theorem visitImportFrom_step {proj : Project} {rank : List Nat} (wf : WFacts pro
 
 theorem starOne_step {proj : Project} {rank : List Nat} (wf : WFacts proj rank) {s : St} (hI : PdInv proj s)
     {ctx t : Nat} (ht : t < proj.length) (hb : s.bad = false) (x : Name) :
-    (starOne ctx t [] s x).bad = false ∧ FrameX proj (some ctx) [] s (starOne ctx t [] s x) := by
+    (starOne pm ctx t [] s x).bad = false ∧ FrameX proj (some ctx) [] s (starOne pm ctx t [] s x) := by
   unfold starOne
   rw [hre_noop (by simp)]
   simp only [Bool.false_eq_true, if_false]
@@ -509,13 +517,13 @@ theorem starFold_step {proj : Project} {rank : List Nat} (wf : WFacts proj rank)
     (hu : ∀ t', modIdx proj T = some t' → t = t') :
     ∀ (l : List Name) (s : St), PdInv proj s → Ctx proj s mod ctx S full →
       (∀ x ∈ l, starOk proj t x ∧ (x ∈ allNames (bodyOf proj t) ∨ HasEntry s t x)) → s.bad = false →
-      (l.foldl (starOne ctx t []) s).bad = false ∧ FrameX proj (some ctx) [] s (l.foldl (starOne ctx t []) s)
+      (l.foldl (starOne pm ctx t []) s).bad = false ∧ FrameX proj (some ctx) [] s (l.foldl (starOne pm ctx t []) s)
   | [], s, _, _, _, hb => ⟨hb, FrameX.refl _ _ _ _⟩
   | x :: xs, s, hI, hc, hx, hb => by
     simp only [List.foldl_cons]
     obtain ⟨hb1, hf1⟩ := starOne_step wf hI (ctx := ctx) ht hb x
     obtain ⟨hI1, he1⟩ := starOne_ok wf hI hc hst hT ht hu (hx x (List.mem_cons_self ..)) hb1
-    have hx' : ∀ y ∈ xs, starOk proj t y ∧ (y ∈ allNames (bodyOf proj t) ∨ HasEntry (starOne ctx t [] s x) t y) := by
+    have hx' : ∀ y ∈ xs, starOk proj t y ∧ (y ∈ allNames (bodyOf proj t) ∨ HasEntry (starOne pm ctx t [] s x) t y) := by
       intro y hy
       obtain ⟨h1, h2⟩ := hx y (List.mem_cons_of_mem _ hy)
       exact ⟨h1, h2.imp id (fun h => h.ext he1)⟩
@@ -636,9 +644,19 @@ theorem enterClass_step {proj : Project} {rank : List Nat} (wf : WFacts proj ran
       (List.getElem?_eq_some_iff.1 ho).1
     have : Names.expandName (envOf s) ctx b = some p := hp
     rw [this] at hx; cases hx
+  have hcrash : (bs.map (fun b => Names.expandName (envOf s) ctx b)).any (baseCrash (envOf s)) = false := by
+    rw [Bool.eq_false_iff]
+    intro h
+    simp only [List.any_eq_true, List.mem_map] at h
+    obtain ⟨x, ⟨b, _, rfl⟩, hx⟩ := h
+    cases hxe : Names.expandName (envOf s) ctx b with
+    | none => simp [hxe, baseCrash] at hx
+    | some p =>
+      simp only [hxe, baseCrash, beq_iff_eq] at hx
+      exact (findObject_nocrash wf hI p).2 hx
   obtain ⟨ci, he⟩ : ∃ ci : List (Nat × ClsInfo), enterClass ctx n bs s = { addObj s .cls n ctx with cinfo := ci } := by
     unfold enterClass
-    simp only [hexp, markBad_false]
+    simp only [hexp, hcrash, Bool.or_false, markBad_false]
     exact ⟨_, rfl⟩
   rw [he]
   exact ⟨⟨hb1, addObj_frame proj hc.pathc hb1⟩, hb1⟩
